@@ -569,12 +569,30 @@ func (r *runner) call(op string, f func() error) bool {
 
 func running(s *snap) bool { return s.S.Status != "Stopped" && s.S.Status != "Stopping" }
 
-// check: at quiescence (no change of the connection state during the grace period) report the sockets
-// the scripted side still sees open. nchg ties the report to the snapshot it was taken under.
+// loopIdle makes one round trip through the torrent loop (Stats is answered by the loop between two events):
+// when it returns the loop is not inside a handler, and everything earlier handlers did has been recorded.
+func (r *runner) loopIdle(timeout time.Duration) bool {
+	done := make(chan struct{})
+	go func() { r.tr.Stats(); close(done) }()
+	select {
+	case <-done:
+		return true
+	case <-time.After(timeout):
+		return false
+	}
+}
+
+// check: at quiescence report the sockets the scripted side still sees open. Quiescence = the connection state
+// did not change during the grace period AND the loop is between two events at its end (a handler that blocks,
+// e.g. stop() waiting for a handshaker, would otherwise be judged half-way). nchg ties the report to the
+// snapshot it was taken under (the projection drops a report whose snapshot is not the latest one).
 func (r *runner) check(grace time.Duration) {
 	for try := 0; try < 8; try++ {
 		n1 := r.h.nchg.Load()
 		time.Sleep(grace)
+		if !r.loopIdle(3*time.Second) || r.h.nchg.Load() != n1 {
+			continue
+		}
 		openIn := [][2]int{}
 		openOut := [][3]int{}
 		r.mu.Lock()
@@ -624,7 +642,13 @@ func (r *runner) step(st Step) {
 			r.h.wait(4*time.Second, func(s *snap) bool { return s.S.Acceptor })
 		}
 	case "stop":
+		t0 := time.Now()
 		r.call("stop", r.tr.Stop)
+		if st.Expect { // the stop takes effect promptly, whatever the remote sides are doing
+			ok := r.h.wait(8*time.Second, func(s *snap) bool { return !running(s) })
+			dt := time.Since(t0)
+			T.Emit(vh.Ev{"ev": "expect", "what": "stop.prompt", "ok": ok && dt < 1500*time.Millisecond, "key": 0, "ms": dt.Milliseconds()})
+		}
 		if !st.NoWait {
 			r.h.wait(4*time.Second, func(s *snap) bool { return s.S.Status == "Stopped" })
 		}
